@@ -7,7 +7,9 @@ import engine_check  # noqa: E402
 import monitors_engine as M  # noqa: E402
 
 LEAN_MODULES = ["KmipModel.Props.C04"]
-RULE = ("small-scope: every sequence of the lifecycle alphabet up to the tier's depth over two objects (exhaustive), "
+RULE = ("small-scope: every sequence of the lifecycle alphabet up to the tier's depth over two objects (exhaustive); "
+        "state x operation matrix: every creating letter x each of its objects x every lifecycle path (Pre-Active, "
+        "Active, revoked from either with each reason code, revoked twice) x every letter addressing that object; "
         "then seeded adaptive histories biased to Create/Register/Activate/Revoke/Destroy and the cryptographic "
         "operations; a line is non-trivial when it targets an existing object with a lifecycle or cryptographic "
         "operation; distinct = distinct (request, identity, outcome shape)")
@@ -61,8 +63,11 @@ def exhaustive_builder(g, E, do, depth):
     seqs = itertools.product(A, repeat=depth - 1) if depth > 1 else [()]
     k = 0
     part, nparts = g.profile.get("part", 0), g.profile.get("nparts", 1)
+    keep = g.profile.get("keep", 1.0)
     for n, rest in enumerate(seqs):
         if n % nparts != part:
+            continue
+        if keep < 1.0 and g.r.random() >= keep:
             continue
         # only prefixes that start by creating something are interesting
         do({"cmd": "reset"})
@@ -72,6 +77,33 @@ def exhaustive_builder(g, E, do, depth):
                 "req": {"version": 14, "ts": None, "async": None, "bopt": None, "maxsize": None, "items": [it]}})
             do({"cmd": "dump"})
         k += 1
+
+
+def state_matrix_builder(g, E, do, depth):
+    """state x operation matrix: every creating letter, every object of it, every lifecycle path of up to two
+    Activate / Revoke steps (plus Deactivated -> Compromised), then every letter addressing that object"""
+    import itertools
+    A = alphabet()
+    first = A[g.profile["first"]]
+    k = 0
+    for u in ("1", "2"):
+        steps = [a for a in A if a["op"] in ("activate", "revoke") and a.get("uid") == u]
+        finals = [a for a in A if a.get("uid") == u or (a["op"] == "deriveKey" and a.get("uids") == [u])
+                  or (a["op"] == "get" and (a.get("wrap") or {}).get("enckey") == u)]
+        act = [a for a in steps if a["op"] == "activate"]
+        revs = [a for a in steps if a["op"] == "revoke"]
+        # Pre-Active; Active; Revoke from Pre-Active; Revoke from Active; a second Revoke after a Revoke from Active
+        paths = [(), (act[0],)] + [(r,) for r in revs] + [(act[0], r) for r in revs] + \
+                [(act[0], r1, r2) for r1 in revs for r2 in revs if r1 is not r2]
+        for path in paths:
+            for fin in finals:
+                do({"cmd": "reset"})
+                do({"cmd": "dump"})
+                for it in (first,) + tuple(path) + (fin,):
+                    do({"cmd": "req", "now": 1000 + k % 3, "id": {"user": "alice", "groups": None},
+                        "req": {"version": 14, "ts": None, "async": None, "bopt": None, "maxsize": None, "items": [it]}})
+                    do({"cmd": "dump"})
+                k += 1
 
 
 def nontrivial(j, o):
@@ -89,15 +121,23 @@ def run(ctx):
     creators = [i for i, a in enumerate(A) if a["op"] in ("create", "createKeyPair", "register")]
     # exhaustive part: sequences starting with a creating letter (others act on an empty store)
     nparts = 3
-    args = [(i * nparts + p, depth, {"first": i, "part": p, "nparts": nparts, "builtin_policies_only": True}, True,
+    # depth 4 is sampled (196k sequences otherwise): depth 3 stays exhaustive in both tiers
+    args = [(i * nparts + p, 3, {"first": i, "part": p, "nparts": nparts, "builtin_policies_only": True}, True,
              "props.c04.exhaustive_builder") for i in creators for p in range(nparts)]
+    if depth == 4:
+        args += [(ctx.seed * 131 + 500 + i * nparts + p, 4,
+                  {"first": i, "part": p, "nparts": nparts, "keep": 0.12, "builtin_policies_only": True}, True,
+                  "props.c04.exhaustive_builder") for i in creators for p in range(nparts)]
+    args += [(1000 + i, depth, {"first": i, "builtin_policies_only": True}, True, "props.c04.state_matrix_builder")
+             for i in creators]
     with multiprocessing.get_context("fork").Pool(min(16, len(args))) as pool:
         exh = pool.map(engine_check.gen_history, args)
-    n_seq = len(creators) * (len(A) ** (depth - 1))
+    n_seq = len(creators) * (len(A) ** 2)
     engine_check.report_monitor_failures(ctx, exh, MONITORS)
     divs = engine_check.correspondence(ctx, exh)
     stats = engine_check.standard_run(ctx, PROFILE, MONITORS, nontrivial, RULE, n_quick=120, n_thorough=1500, length=40,
-                                      extra_cov={"exhaustive_depth": depth, "exhaustive_sequences": n_seq,
+                                      extra_cov={"exhaustive_depth": 3, "exhaustive_sequences": n_seq,
+                                                 "sampled_depth4_fraction": 0.12 if depth == 4 else 0,
                                                  "alphabet": len(A), "exhaustive": False})
     if divs and not ctx.violations:
         d = divs[0]
